@@ -345,7 +345,7 @@ theorem moveElementsDown_spec (n : Nat) (hn : 0 < n) : ∀ (m : Nat) (c : Block)
     rw [e2 j]
     simp only [c1]
     have hxx : ∀ i, i = p → c[i]? = some (some x) := by intro i hi; subst hi; exact hx
-    split_ifs <;> first | rfl | omega | (congr 1; omega) | (rw [hxx _ (by omega)])
+    split_ifs <;> first | rfl | omega | (rw [hxx _ (by omega)])
 
 theorem moveElementsUp_spec (n : Nat) (hn : 0 < n) (p : Nat) : ∀ (m : Nat) (c : Block) (L : Log),
     (∀ k, k < m → ∃ x, c[p + k]? = some (some x)) →
@@ -388,6 +388,6 @@ theorem moveElementsUp_spec (n : Nat) (hn : 0 < n) (p : Nat) : ∀ (m : Nat) (c 
     rw [e2 j]
     simp only [c1]
     have hxx : ∀ i, i = p + m → c[i]? = some (some x) := by intro i hi; subst hi; exact hx
-    split_ifs <;> first | rfl | omega | (congr 1; omega) | (rw [hxx _ (by omega)])
+    split_ifs <;> first | rfl | omega | (rw [hxx _ (by omega)])
 
 end C26
